@@ -13,7 +13,7 @@ EXPLANATION = ("Structural necessary conditions only: Identity::self_signed = bu
                "{:?} of [u8;32] <-> trim '[' ']' split ',' decimal u8; in the whole parser family (function, closures, helpers) no truncating / skipping adaptor "
                "sits between the split and the element parser and Ok is reached only after a successful Vec<u8> -> [u8;32] conversion; FromStr tries both); the parsers / loaders "
                "contain no undischarged panic obligation."
-               ' Also (C19-R5/R6): the pin set has order-independent membership (new/add/contains on a set type); the PEM writers create-and-truncate their destination.')
+               ' Also (C19-R5/R6): the pin set has order-independent membership (new/add/contains on a set type); the PEM writers create-and-truncate their destination. C19-R7: Identity::load_pemfiles builds the identity from CertificateChain::load_pemfile (the whole chain) and PrivateKey::load_pemfile; the chain loader collects every PEM section of the file and the chain writer writes to_pem() of every element; clone_identity clones chain and key.')
 NOT_DECIDED = ["the round-trip equalities themselves (value-level)", "rcgen / x509-parser / pem crate behaviour", "file I/O"]
 TRUSTED = ["rustc MIR", "rcgen CertificateParams semantics", "pem::encode / rustls_pki_types PEM parsing"]
 
@@ -158,6 +158,30 @@ def run(ctx):
         ctx.check("C19-R6", "%s truncates the destination" % nm, bool(opens) and (opens <= {"File::create", "write"} or trunc),
                   "%s opens its destination with %s: without truncation an older, longer file keeps its tail and `load_pemfile` returns certificates that were not stored"
                   % (nm, sorted(opens)), where(gg), key="%s truncates" % nm)
+
+    ctx.rule("C19-R7", "identities and chains of every length round-trip: the identity loader takes the whole chain, the chain loader / writer visit every PEM section / certificate")
+    gg = A.find1(r"^wtransport::tls::Identity::load_pemfiles::\{closure#0\}$")
+    okl = [path_sig(p)[1] for p in nonpanic(walk(gg)) if path_sig(p)[1].startswith("return Result::Ok(")]
+    ctx.check("C19-R7", "Identity::load_pemfiles = (whole chain, key)", okl == ["return Result::Ok(Identity::new(ok(await(CertificateChain::load_pemfile(cert_pemfile))),ok(await(PrivateKey::load_pemfile(private_key_pemfile)))))"],
+              "Identity::load_pemfiles does not build the identity from CertificateChain::load_pemfile(cert file) and PrivateKey::load_pemfile(key file): %s" % okl, where(gg))
+    gg = A.find1(r"^wtransport::tls::CertificateChain::load_pemfile::\{closure#0\}$")
+    okl = [path_sig(p)[1] for p in nonpanic(walk(gg)) if path_sig(p)[1].startswith("return Result::Ok(")]
+    FILEB = r"ok\(await\(read\(AsRef::as_ref\(filepath\)\)\)\)"
+    ctx.check("C19-R7", "CertificateChain::load_pemfile collects every section", len(okl) == 1 and re.match(r"^return Result::Ok\(CertificateChain(::new)?\(ok\(Iterator::collect\(Iterator::map\((Iterator::enumerate\()?PemObject::pem_slice_iter\(%s\)\)?,closure:[^()]*\)\)\)\)\)$" % FILEB, okl[0]) is not None,
+              "CertificateChain::load_pemfile is not `collect(map(pem_slice_iter(file bytes), parse))` over all sections (a take / skip / filter / first drops certificates of the chain): %s" % okl, where(gg))
+    gg = A.find1(r"^wtransport::tls::CertificateChain::store_pemfile::\{closure#0\}$")
+    ps_ = nonpanic(walk(gg))
+    IT = r"<Iter<T> as Iterator>::next\(<I as IntoIterator>::into_iter\(<impl \[T\]>::iter\(self\.0\)\)\)"
+    loops = [p for p in ps_ if p.leaf[0] == "loop"]
+    wr = [e for p in loops for e in event_strs(p) if e.startswith("await AsyncWriteExt::write_all(")]
+    okw = len(loops) == 1 and len(wr) == 1 and re.match(r"^await AsyncWriteExt::write_all\(ok\(await\(File::create\(filepath\)\)\),String::as_bytes\(Certificate::to_pem\(ok\(%s\)\)\)\)$" % IT, wr[0]) is not None
+    done = [path_sig(p) for p in ps_ if path_sig(p)[1] == "return Result::Ok(())"]
+    okd = len(done) == 1 and any(re.match(r"^%s fails$" % IT, a) for a in done[0][0])
+    ctx.check("C19-R7", "CertificateChain::store_pemfile writes every certificate", okw and okd,
+              "CertificateChain::store_pemfile does not write to_pem() of each element of the chain and return Ok only when the iterator is exhausted: writes=%s done=%s" % (wr, [d[0][-2:] for d in done]), where(gg))
+    gg = A.fn(T + "Identity::clone_identity")
+    okl = [path_sig(p)[1] for p in nonpanic(walk(gg))]
+    ctx.check("C19-R7", "Identity::clone_identity clones chain and key", okl == ["return Identity::new(<CertificateChain as Clone>::clone(self.certificate_chain),PrivateKey::clone_key(self.private_key))"], "Identity::clone_identity changed: %s" % okl, where(gg))
 
     ctx.rule("C19-R4", "no undischarged panic obligation in the digest / DER / PEM parsers")
     n = 0
